@@ -81,6 +81,12 @@ SysVerdict(r) ==
     ELSE IF QV(o.observations) # e.observations THEN "SystemObservationValue"
     ELSE IF QV(o.norm_loss) # e.norm_loss THEN "SystemNormalisationValue"
     ELSE "ok"
+(* the differential clause on real networks (MLP / hyper-network PINNs): a one-equation one-unknown system returns the terms of the plain
+   loss built from the same pieces; the comparison (relative 1e-9, x64) is made by the driver, this verdict only names the failure *)
+SysPlainVerdict(r) ==
+    IF r.exc # "" THEN "SystemLossRaised"
+    ELSE IF ~r.ok THEN "OneByOneSystemDiffersFromPlainLoss"
+    ELSE "ok"
 SysLemmaBad == {k \in DOMAIN Recs : Recs[k].kind = "sysloss" /\ Len(Recs[k].eqs) = 1 /\ Len(Recs[k].nets) = 1
                                      /\ LET r == Recs[k]  s == SysTerms(r)  p == Terms(PlainOf(r)) IN
                                         ~(s.dyn_loss = p.dyn_loss /\ s.initial_condition = p.initial_condition
@@ -138,6 +144,7 @@ Verdict == CASE Rec.kind = "operator" -> OperatorVerdict(Rec)
              [] Rec.kind = "net" -> NetVerdict(Rec)
              [] Rec.kind = "equation" -> EquationVerdict(Rec)
              [] Rec.kind = "sysloss" -> SysVerdict(Rec)
+             [] Rec.kind = "sysplain" -> SysPlainVerdict(Rec)
              [] Rec.kind = "grad" -> GradVerdict(Rec)
              [] Rec.kind = "loss" -> LossVerdict(Rec)
              [] OTHER -> "UnknownKind"
